@@ -297,6 +297,8 @@ fn c02(tier: &str, thorough: bool) -> i32 {
     // names at the 31-unit limit (the 64-byte name field is exactly full)
     for v in [3u16, 4] {
         add_enum(&ctx, &mut tot, "31-unit names", &EnumCfg { version: v, seed: "fresh".into(), ops: long_name_ops(), depth: 3, oracles: o, extra_paths: vec![], one_reopen: false, extend_refused: false });
+        // live sequences of releasing / re-taking mini sectors: continuing live must equal continuing after a reopen
+        add_enum(&ctx, &mut tot, "four one-mini-sector streams, live", &mini_live_cfg(v, 4, o));
         // ASCII next to non-ASCII siblings whose UTF-8 length order differs from their UTF-16 length order
         let mixed = ["/abc", "/\u{e9}\u{e9}", "/\u{4e2d}", "/ab", "/g/abc", "/g/\u{e9}\u{e9}"];
         let mut ops: Vec<Op> = vec![Op::CreateStorage("/g".into())];
@@ -464,8 +466,13 @@ fn c10(tier: &str, thorough: bool) -> i32 {
         flat.ops.push(Op::RemoveStorage("/m".into()));
         flat.ops.push(Op::CreateNewStream("/d".into()));
         add_bfs(&ctx, &mut tot, "flat siblings + refused calls", &flat);
-        let a = DataAlpha { paths: vec!["/s", "/t"], rewrite: vec![0, 65, 4096], setlen: vec![1, 4097], append: vec![64], patch: vec![(9999, 1)], remove: true };
+        let a = DataAlpha { paths: vec!["/s", "/t"], rewrite: vec![0, 65, 300, 4096], setlen: vec![1, 4097], append: vec![64], patch: vec![(9999, 1)], remove: true };
         let mut ops = data_ops(&a);
+        // the root is not a stream (its entry describes the mini stream's chain)
+        for alias in ["/", "", "/s/.."] {
+            ops.push(Op::RemoveStream(alias.into()));
+            ops.push(Op::CreateNewStream(alias.into()));
+        }
         ops.push(Op::CreateStorage("/s".into()));
         ops.push(Op::CreateNewStream("/s".into()));
         ops.push(Op::RemoveStorage("/s".into()));
@@ -516,6 +523,14 @@ fn c15(tier: &str, thorough: bool) -> i32 {
         cyc.push((0..5).map(|i| Op::CreateStream(format!("/e{}", i))).chain((0..5).map(|i| Op::RemoveStream(format!("/e{}", i)))).collect());
         cyc.push(vec![Op::Rewrite("/c".into(), 100), Op::Rewrite("/d".into(), 5000), Op::RemoveStream("/c".into()), Op::RemoveStream("/d".into())]);
         cyc.push(vec![Op::Rewrite("/c".into(), 100), Op::Rewrite("/d".into(), 200), Op::RemoveStream("/d".into()), Op::RemoveStream("/c".into())]);
+        // three small streams (a quarter of a sector each) created, then removed in every order
+        let q = if v == 3 { 128 } else { 1024 };
+        for order in [[0usize, 1, 2], [0, 2, 1], [1, 0, 2], [1, 2, 0], [2, 0, 1], [2, 1, 0]] {
+            let names = ["/ca", "/cc", "/cd"];
+            let mut c: Vec<Op> = names.iter().map(|n| Op::Rewrite(n.to_string(), q)).collect();
+            c.extend(order.iter().map(|&i| Op::RemoveStream(names[i].to_string())));
+            cyc.push(c);
+        }
         let a = DataAlpha { paths: vec!["/s", "/t"], rewrite: if thorough { sizes.clone() } else { vec![0, 10, 64, 100, 4095, 4096, 5000] }, setlen: vec![], append: vec![], patch: vec![], remove: true };
         // fill levels of the mini stream / MiniFAT / FAT
         let mut seeds: Vec<String> = vec!["fresh".into()];
@@ -523,14 +538,14 @@ fn c15(tier: &str, thorough: bool) -> i32 {
             for k in [1usize, 7, 8, 9, 63] {
                 seeds.push(format!("s1x{}", 64 * k));
             }
-            for s in ["s1x4032+s1x64", "s1x4032+s1x128", "s2x4032+s1x64", "s2x4032+s1x128", "s2x4032+s1x192", "b63000", "b63488", "b64000", "r3x100", "r2x5000+s1x64"] {
+            for s in ["s1x4032+s1x64", "s1x4032+s1x128", "s2x4032+s1x64", "s2x4032+s1x128", "s2x4032+s1x192", "b63000", "b63488", "b64000", "r3x100", "r2x5000+s1x64", "g1x128", "g2x128"] {
                 seeds.push(s.to_string());
             }
         } else {
             for k in [1usize, 63] {
                 seeds.push(format!("s1x{}", 64 * k));
             }
-            for s in ["s1x4032+s1x64", "s1x4032+s1x128", "r3x100", "r2x5000+s1x64"] {
+            for s in ["s1x4032+s1x64", "s1x4032+s1x128", "r3x100", "r2x5000+s1x64", "g1x1024", "g2x1024"] {
                 seeds.push(s.to_string());
             }
             if thorough {
@@ -900,6 +915,9 @@ fn c09(tier: &str, thorough: bool) -> i32 {
                 let few: Vec<String> = ["a", "B", "\u{e9}", "\u{1f600}", "\u{e000}a", "\u{3a9}", "ab", "\u{ff21}"].iter().map(|s| s.to_string()).collect();
                 add(crate::e1n::coexistence(ctx, v, &few, 4), &format!("v{} coexistence k=4 over {} names", v, few.len()), ctx);
             }
+            // every insertion order of five names, then every removal order (sibling trees of depth up to 5)
+            let five: Vec<String> = ["n2", "N3", "n4", "\u{e9}5", "n7"].iter().map(|s| s.to_string()).collect();
+            add(crate::e1n::coexistence(ctx, v, &five, 5), &format!("v{} coexistence k=5 over {} names", v, five.len()), ctx);
         }
     }
     ctx.finish(hists, steps)
@@ -1000,7 +1018,7 @@ fn c17(tier: &str, thorough: bool) -> i32 {
     // stream appearing, emptying, migrating; directory slots being freed and reused)
     for v in [3u16, 4] {
         let set_all = |t: &str| vec![Op::SetClsid(t.into(), clsids[2]), Op::SetStateBits(t.into(), 0x0102_0304), Op::SetCreated(t.into(), times[3]), Op::SetModified(t.into(), times[5])];
-        let content: Vec<Op> = vec![Op::Rewrite("/s".into(), 100), Op::Rewrite("/s".into(), 5000), Op::SetLen("/s".into(), 0), Op::SetLen("/s".into(), 4096), Op::RemoveStream("/s".into()), Op::Rewrite("/D/t".into(), 64), Op::RemoveStream("/D/t".into()), Op::CreateStorage("/e".into()), Op::RemoveStorage("/e".into())];
+        let content: Vec<Op> = vec![Op::Rewrite("/s".into(), 100), Op::Rewrite("/s".into(), 5000), Op::SetLen("/s".into(), 0), Op::SetLen("/s".into(), 4096), Op::RemoveStream("/s".into()), Op::Rewrite("/D/t".into(), 64), Op::RemoveStream("/D/t".into()), Op::CreateStorage("/e".into()), Op::RemoveStorage("/e".into()), Op::RemoveStream("/M".into())];
         let depth = if thorough { 4 } else { 3 };
         let mut level: Vec<Vec<Op>> = vec![vec![]];
         for _ in 0..depth {
@@ -1013,7 +1031,7 @@ fn c17(tier: &str, thorough: bool) -> i32 {
                 }
             }
             for q in &next {
-                let mut o = vec![Op::CreateStorage("/D".into())];
+                let mut o = vec![Op::Rewrite("/M".into(), 10), Op::CreateStorage("/D".into())];
                 o.extend(set_all("/"));
                 o.extend(set_all("/D"));
                 o.extend(q.iter().cloned());
